@@ -22,7 +22,6 @@ import (
 	"reflect"
 	"sort"
 	"sync"
-	"time"
 
 	"verif/harness/vh"
 )
@@ -197,7 +196,7 @@ func callByName(obj interface{}, name string, k int) bool {
 	if !ok {
 		return false
 	}
-	o := vh.GuardTimeout(2*time.Second, func() { m.Call(args) })
+	o := vh.GuardTimeout(hangLimit, func() { m.Call(args) })
 	return o.OK()
 }
 
@@ -298,7 +297,7 @@ type sweepRes struct {
 }
 
 func sweep(env *vh.Env, rep *vh.Report, only map[string]bool, facts lockFacts) {
-	watchdog := 2 * time.Second
+	watchdog := hangLimit
 	var mu sync.Mutex
 	var res []sweepRes
 	var wg sync.WaitGroup
@@ -475,7 +474,7 @@ func directedDeadlockSearch(env *vh.Env, rep *vh.Report, facts lockFacts, only m
 				if !okA {
 					continue
 				}
-				if o := vh.GuardTimeout(500*time.Millisecond, func() { meth.Call(args) }); o.Timeout {
+				if o := vh.GuardTimeout(hangLimit, func() { meth.Call(args) }); o.Timeout {
 					ok = false // the set-up itself hung: that call is the finding
 					key := c.name + "." + m + ":deadlock"
 					if !found[key] {
